@@ -12,7 +12,7 @@ META = {
             'directly: valid PDA, language equal to the original on all words <=3 (exact summary-saturation oracle on both sides), '
             'push/pop form really push/pop, empty-stack form accepts only with empty stack; pda_to_cfg on small PDAs: grammar language '
             '(span-saturation oracle) equal to the PDA language on all words <=3 (2); input untouched; non-trivial = PDA accepting some '
-            'non-empty word with a stack operation; distinct by content',
+            'non-empty word with a stack operation; distinct by content; also state names with \'_\' and with an apostrophe (the recorded variable-name finding), ambiguous stack symbols',
     'assumptions': ['PDA.valid (constructor); delta is a defaultdict(set) as the parser builds it'],
     'trusted_base': ['Spec: Gamba/Spec/PDA.lean, Gamba/Spec/CFG.lean'],
 }
